@@ -70,7 +70,7 @@ structure ITInv (cfg : Cfg) (s0 : State) (k : Nat) (s : State) : Prop where
 theorem getD_getElem {α} (l : List α) (i : Nat) (d : α) (h : i < l.length) : l.getD i d = l[i] := by
   simp [List.getD_eq_getElem?_getD, List.getElem?_eq_getElem h]
 
-theorem it_loop_none {cfg : Cfg} {s0 : State} (hord : cfg.order = .none) {n : Nat}
+theorem it_loop_none {cfg : Cfg} {s0 : State} (hord : cfg.order ≠ .initCharge) {n : Nat}
     (hn1 : n ≤ s0.c.numVacancies) (hn2 : n ≤ s0.c.numInitializers)
     (hni : s0.c.numInitializers ≤ cfg.capacity)
     (hvlen : s0.c.numVacancies ≤ s0.vacancies.length)
@@ -84,7 +84,7 @@ theorem it_loop_none {cfg : Cfg} {s0 : State} (hord : cfg.order = .none) {n : Na
     rw [foldl_range_succ]
     generalize (List.range k).foldl (initTrack s0.c n) s = sk at hI
     obtain ⟨e1, e2, e3, e4, e5, e6, e7, e8, e9⟩ := hI.same
-    have hso : sk.cfg.order = .none := by rw [hI.lens.cfg_eq]; exact hord
+    have hso : ¬ sk.cfg.order = .initCharge := by rw [hI.lens.cfg_eq]; exact hord
     -- the slot and initializer taken by thread k
     have hvi : s0.c.numVacancies - k - 1 < s0.vacancies.length := by omega
     have hslot : s0.vacancies.getD (s0.c.numVacancies - k - 1) 0
